@@ -90,6 +90,11 @@ func nodeAt(segs []ref.Seg, off int) string {
 	return "end"
 }
 
+// plainWriter implements Write and nothing else.
+type plainWriter struct{ n int }
+
+func (p *plainWriter) Write(b []byte) (int, error) { p.n += len(b); return len(b), nil }
+
 func init() {
 	fw.Register(&fw.Prop{
 		ID:    "C12",
@@ -193,6 +198,14 @@ func init() {
 				if curMsgs != nil {
 					r.WithMessages(curMsgs)
 				}
+				if i%3 == 1 {
+					// a Renderer that has already been executed once, into a healthy writer of the plainest kind: what it
+					// owes the next writer is the same
+					if err := r.Execute(&plainWriter{}, toDataMap(prog.Data)); err != nil {
+						return err
+					}
+					armRenderBudget()
+				}
 				return r.Execute(w, toDataMap(prog.Data))
 			}
 			kinds12, _ := shapeOf(prog.B)
@@ -218,6 +231,13 @@ func init() {
 			O := string(out)
 			cd := dump(files, prog, prog.Data)
 			cd.Want = O
+			if want := ref.NormalizeRefs(ref.Text(segs)); curMsgs == nil && ref.NormalizeRefs(O) != want {
+				// "a render returns nil only if every byte of the output was accepted": the writer never failed, the
+				// render returned nil, and the writer does not hold the output
+				cd.Want, cd.Got = diffWindow(want, O), diffWindow(O, want)
+				return fw.Result{Verdict: fw.Violated, Key: "nil-but-output-not-delivered", Case: cd,
+					Msg: fmt.Sprintf("the render returned nil into a writer that never failed, but the writer holds %d bytes where the output has %d", len(O), len(want))}
+			}
 			srcID := files[0].Text
 			ctx.Obs("templates", 1)
 			ctx.Max("max_write_calls", float64(len(rec.writes)))
@@ -238,6 +258,11 @@ func init() {
 					cd.Got = string(fwr.accepted)
 					return &fw.Result{Verdict: fw.Violated, Key: "nil-on-failed-write:" + node, Case: cd,
 						Msg: fmt.Sprintf("%s: the writer returned an error but the render returned nil (accepted %d of %d bytes; failing write belongs to %s)", what, len(fwr.accepted), len(O), node)}
+				}
+				if err == nil && string(fwr.accepted) != O {
+					cd.Got = diffWindow(string(fwr.accepted), O)
+					return &fw.Result{Verdict: fw.Violated, Key: "nil-but-output-not-delivered:" + node, Case: cd,
+						Msg: fmt.Sprintf("%s: the render returned nil but the writer accepted %d of %d bytes", what, len(fwr.accepted), len(O))}
 				}
 				if !mustFail && err != nil {
 					return &fw.Result{Verdict: fw.Violated, Key: "error-without-fault", Case: cd, Msg: fmt.Sprintf("%s: no write failed but the render returned %v", what, err)}
